@@ -142,6 +142,21 @@ CLAIMED["C18"] = dict(
     technique="runtime monitoring: render/parse round-trip oracle with structural type equality",
 )
 
+CLAIMED["C17"] = dict(
+    category="exploration",
+    text="Operation histories over send/recv/store/load/force/spawn/resume/yield (2 channels, 2 references, 5 lazies "
+         "of which 2 fail and 1 forces itself, up to 3 green threads, nested resumes) are compiled to gluon IO programs in which every "
+         "operation logs what it observed; an executable sequential model (FIFO queues, cells, run-once lazies, "
+         "coroutine program counters) predicts the log and the order of lazy computation runs exactly; a blocked-forever "
+         "monitor (no CPU consumed for 8 s) turns hangs into violations. Exhaustive over a 10-letter alphabet up to "
+         "length 5 (quick) / 6 (thorough), plus longer random histories.",
+    design_ref="DESIGN.md §4 C17",
+    note="The property text asks for exhaustive length 8; 10^8 programs are out of reach at ~1.5 ms each, so length 6 is "
+         "exhaustive and longer histories are sampled. A self-dependent lazy is built through the harness's extern stash (plain source cannot express one). "
+         "F11 (failing lazy stays blackholed, other threads wait forever) found by this check and repaired.",
+    technique="runtime monitoring: history recording at the program boundary checked against an executable sequential model; blocked-forever monitor",
+)
+
 CLAIMED["C20"] = dict(
     category="exploration",
     text="For generated programs (complete, truncated, one token deleted) the typed or salvaged AST is obtained the way a "
